@@ -70,15 +70,20 @@ Magnitude(d, e) ==
   IF m >= 310 THEN "range"
   ELSE IF m <= 308 THEN "ok"
   ELSE LET c == Cmp(Pad17(d), DblMaxPrefix) IN
+       \* up to the largest double: in range.  Beyond it by more than a relative 2^-50 (the accuracy the
+       \* documentation promises for a result): out of range.  In between, rounding to the largest double
+       \* and rejecting are both acceptable.
        IF c <= 0 THEN "ok"
-       ELSE IF Cmp(Pad17(d), AddSmall(DblMaxPrefix, 2)) >= 0 THEN "range" ELSE "edge"
+       ELSE IF Cmp(Pad17(d), AddSmall(DblMaxPrefix, 18)) >= 0 THEN "range" ELSE "edge"
 
 IntegerValue(neg, d0) ==
   LET d == Norm(d0) IN
   IF d = Zero THEN [t |-> "int", neg |-> FALSE, d |-> Zero]
   ELSE IF (~neg /\ Leq(d, U64Max)) \/ (neg /\ Leq(d, I64MaxPlus1))
     THEN [t |-> "int", neg |-> neg, d |-> d]
-    ELSE [t |-> "big", neg |-> neg, d |-> d]
+  \* outside the 64-bit range: a float approximating it - unless it is beyond the largest double
+  ELSE LET mg == Magnitude(d, 0) IN
+       IF mg = "ok" THEN [t |-> "big", neg |-> neg, d |-> d] ELSE [t |-> mg]
 
 \* exponent digits beyond 6 places cannot matter: +- 10^6 already decides overflow / underflow
 ExpValue(ds) == LET d == Norm(ds) IN IF Len(d) > 6 THEN 1000000 ELSE ToNat(d)
@@ -112,18 +117,26 @@ DenoteRadix(body, r) ==
   LET sh == RadixShape(body, r) IN IntegerValue(sh.neg, FromRadix(sh.ds, r))
 
 (***************************************************************************)
-(* Accuracy class the documentation promises for a "flt" denotation        *)
-(* (C05): "exact" = correctly rounded.  fast = built with the default      *)
-(* feature fast-float-parsing.                                             *)
+(* Accuracy class the documentation promises for a decimal literal with a  *)
+(* fraction and/or exponent (C05): "exact" = correctly rounded, whenever   *)
+(* the literal's digits (integer and fraction digits as written, leading   *)
+(* zeros aside) fit in 2^53 with an effective exponent |e| <= 22, and also *)
+(* - built without fast-float-parsing (fast = FALSE) - whenever it has at  *)
+(* most 19 such digits; otherwise within relative error 2^-50.             *)
 (***************************************************************************)
-FitsIn2p53(d) == Leq(d, Pow2(53))
+FitsIn2p53(d) == Leq(d, TwoPow53)
 
-Class(n, fast) ==
-  IF n.t # "flt" THEN n.t
-  ELSE IF n.d = Zero THEN "exact"
-  ELSE IF FitsIn2p53(n.d) /\ n.e >= 0 - 22 /\ n.e <= 22 THEN "exact"
-  ELSE IF ~fast /\ Len(n.d) <= 19 THEN "exact"
-  ELSE "within2^-50"
+ClassOfDecimal(tok, fast) ==
+  LET sh  == DecShape(tok)
+      raw == Norm(sh.int \o sh.frac)
+      x   == ExpValue(sh.exp)
+      re  == (IF sh.expNeg THEN 0 - x ELSE x) - Len(sh.frac)
+      den == DenoteDecimal(tok)
+  IN IF den.t # "flt" THEN den.t
+     ELSE IF den.d = Zero THEN "exact"
+     ELSE IF FitsIn2p53(raw) /\ re >= 0 - 22 /\ re <= 22 THEN "exact"
+     ELSE IF ~fast /\ Len(raw) <= 19 THEN "exact"
+     ELSE "within2^-50"
 
 \* may an implementation result be compared digit for digit with the denotation?  Any decimal of at
 \* most 15 significant digits inside the normal range is the shortest form of its nearest double.
